@@ -1973,6 +1973,7 @@ end
 
 function visitors.Defer(context, node)
   local blocknode = node[1]
+  context:get_forked_scope(blocknode).is_deferblock = true
   context:traverse_node(blocknode)
   -- mark `has_defer`, used to check mixing with `goto`
   context.scope.has_defer = true
@@ -2157,7 +2158,18 @@ function visitors.ForIn(context, node)
   end
 end
 
+-- Raises an error when a jump statement would leave a `defer` block before reaching its target scope.
+local function check_jump_out_of_defer(context, node, what, targetkind)
+  for scope in context.scope:iterate_up_scopes() do
+    if scope[targetkind] or scope.is_function then break end
+    if scope.is_deferblock then
+      node:raisef("`%s` statement cannot jump out of a `defer` block", what)
+    end
+  end
+end
+
 function visitors.Break(context, node)
+  check_jump_out_of_defer(context, node, 'break', 'is_loop')
   local loopscope = context.scope:get_up_scope_of_any_kind('is_loop', 'is_function')
   if not (loopscope and loopscope.is_loop) then
     node:raisef("`break` statement is not inside a loop")
@@ -2166,6 +2178,7 @@ function visitors.Break(context, node)
 end
 
 function visitors.Continue(context, node)
+  check_jump_out_of_defer(context, node, 'continue', 'is_loop')
   local loopscope = context.scope:get_up_scope_of_any_kind('is_loop', 'is_function')
   if not (loopscope and loopscope.is_loop) then
     node:raisef("`continue` statement is not inside a loop")
@@ -2475,6 +2488,7 @@ end
 
 function visitors.Return(context, node)
   local retnodes = node
+  check_jump_out_of_defer(context, node, 'return', 'is_function')
   local funcscope = context.scope:get_up_function_scope() or context.rootscope
   funcscope.hasreturn = true
   if funcscope.rettypes then
@@ -2531,6 +2545,7 @@ end
 
 function visitors.In(context, node)
   local retnode = node[1]
+  check_jump_out_of_defer(context, node, 'in', 'is_doexpr')
   local exprscope = context.scope:get_up_doexpr_scope()
   if not exprscope then
     retnode:raisef("no do expression block found to use `in` statement")
